@@ -64,7 +64,7 @@ static call_t mk_call(fsm_t* target, event_t ev, EventSource src) { call_t c; c.
 /* invoking a stored functor = target->process_event_internal(ev, src) (its own unit, below) */
 HandledEnum invoke_call(call_t c)
 __CPROVER_requires(c.ticket == g_dispatched)                                     /*@ob C04.dispatched-in-submission-order-exactly-once */
-__CPROVER_requires(g_dispatched < g_popped)                                      /*@ob C04.dispatched-only-after-removal-from-the-queue */
+__CPROVER_requires(g_dispatched < g_popped)                                      /*@ob C04,C20.dispatched-only-after-removal-from-the-queue-the-dispatcher-owns-the-occurrence */
 __CPROVER_requires(!g_self->m_event_processing || g_no_msg_queue)               /*@ob C04.queued-event-never-interrupts-a-running-step */
 __CPROVER_assigns(g_dispatched, g_pushed, g_exc)
 __CPROVER_ensures(g_dispatched == __CPROVER_old(g_dispatched) + 1 && g_pushed >= __CPROVER_old(g_pushed))
